@@ -2,7 +2,8 @@
 # usage: tools/eval_seed.sh <seed id, e.g. C04-3> [out dir]
 # Applies seeded/<id>/patch.diff to a scratch worktree of /repo HEAD, runs the pinned tests, the demonstration (if any) on the
 # unchanged tree and on the patched worktree, and the quick tier of the property's check against the patched worktree.
-name=$1; out=${2:-/verif/build/seed_eval}; d=/verif/seeded/$name; pid=${name%-*}
+ROOT=$(cd "$(dirname "$0")/.." && pwd)
+name=$1; out=${2:-$ROOT/build/seed_eval}; d=$ROOT/seeded/$name; pid=${name%-*}
 mkdir -p $out; res=$out/$name.txt; : > $res
 wt=/tmp/evalwt-$name
 git -C /repo worktree remove --force $wt >/dev/null 2>&1
@@ -12,10 +13,10 @@ t=$(cd $wt && /venv/bin/python -m pytest -q -p no:cacheprovider auth/test/test_a
 echo "pinned: $t" >> $res
 export PYTHONDONTWRITEBYTECODE=1
 if [ -f $d/demo.py ]; then
-  (cd $d && SEED_NUMPY_DIR=/verif/build/pydeps SEED_WT=/repo SEED_WORKTREE=/repo SEED_ROOT=/repo REPO_ROOT=/repo timeout 300 /venv/bin/python demo.py /repo > $out/$name.demo.clean 2>&1; echo "demo clean exit $?" >> $res)
-  (cd $d && SEED_NUMPY_DIR=/verif/build/pydeps SEED_WT=$wt SEED_WORKTREE=$wt SEED_ROOT=$wt REPO_ROOT=$wt timeout 300 /venv/bin/python demo.py $wt > $out/$name.demo.patched 2>&1; echo "demo patched exit $?" >> $res)
+  (cd $d && SEED_NUMPY_DIR=$ROOT/build/pydeps SEED_WT=/repo SEED_WORKTREE=/repo SEED_ROOT=/repo REPO_ROOT=/repo timeout 300 /venv/bin/python demo.py /repo > $out/$name.demo.clean 2>&1; echo "demo clean exit $?" >> $res)
+  (cd $d && SEED_NUMPY_DIR=$ROOT/build/pydeps SEED_WT=$wt SEED_WORKTREE=$wt SEED_ROOT=$wt REPO_ROOT=$wt timeout 300 /venv/bin/python demo.py $wt > $out/$name.demo.patched 2>&1; echo "demo patched exit $?" >> $res)
 else echo "no demo (scenario only)" >> $res; fi
-cd /verif
+cd $ROOT
 VERIF_REPO=$wt timeout 3000 ./check $pid --tier quick > $out/$name.check.log 2>&1; rc=$?
 sig=$(grep -h "signature:" $out/$name.check.log | head -4 | sed 's/^ *signature: //' | tr '\n' ';')
 echo "check $pid exit $rc $sig" >> $res
